@@ -876,9 +876,16 @@ func (g *gen) instr(in ssa.Instruction, st State, reach string) string {
 			if g.volatile == nil {
 				g.volatile = map[string]bool{}
 			}
-			for _, b := range mc.Bindings {
+			for bi, b := range mc.Bindings {
+				if cf, ok := mc.Fn.(*ssa.Function); ok && bi < len(cf.FreeVars) && onlyLoaded(cf.FreeVars[bi]) {
+					continue // the goroutine only reads this variable: its value is what this function last stored
+				}
 				if bv := g.val(b); bv.L == nil {
 					g.volatile[bv.T] = true
+					if g.volatileT == nil {
+						g.volatileT = map[string]types.Type{}
+					}
+					g.volatileT[bv.T] = b.Type()
 				}
 			}
 			g.ctx.note("cells captured by a spawned goroutine are volatile")
@@ -948,6 +955,26 @@ func (g *gen) instr(in ssa.Instruction, st State, reach string) string {
 		g.unsupportedf("instruction %T", in)
 	}
 	return reach
+}
+
+// onlyLoaded: every use of the captured variable inside the closure is a plain load (`*fv`).
+func onlyLoaded(fv *ssa.FreeVar) bool {
+	refs := fv.Referrers()
+	if refs == nil {
+		return false
+	}
+	for _, r := range *refs {
+		switch u := r.(type) {
+		case *ssa.UnOp:
+			if u.Op != token.MUL {
+				return false
+			}
+		case *ssa.DebugRef:
+		default:
+			return false
+		}
+	}
+	return true
 }
 
 func (g *gen) closures() map[string]*ssa.MakeClosure {
@@ -1064,7 +1091,9 @@ func (g *gen) storeLoc(st State, l *Loc, v Val, vt types.Type) {
 // immutable constants (assumption: sentinel errors are never reassigned).
 func sentinelErr(gl *ssa.Global) (string, bool) {
 	pt, ok := gl.Type().(*types.Pointer)
-	if !ok || !(strings.HasPrefix(gl.Name(), "Err") || (gl.Name() == "EOF" && gl.Pkg != nil && gl.Pkg.Pkg.Path() == "io")) {
+	stdSentinel := gl.Pkg != nil && ((gl.Name() == "EOF" && gl.Pkg.Pkg.Path() == "io") ||
+		((gl.Name() == "Canceled" || gl.Name() == "DeadlineExceeded") && gl.Pkg.Pkg.Path() == "context"))
+	if !ok || !(strings.HasPrefix(gl.Name(), "Err") || stdSentinel) {
 		return "", false
 	}
 	if n, ok := pt.Elem().(*types.Named); !ok || n.Obj().Name() != "error" || n.Obj().Pkg() != nil {
